@@ -61,6 +61,9 @@ def expand(flat, dde, drv=None, path="scalar", dt=None):
                     raise C.HarnessError("Lean slot classification and the oracle disagree: " + json.dumps([e, k, want]))
                 if chain and n == 0 and D > 1:
                     e.pop("spread", None)          # order 0 with a representable delay: a pure (ring-buffer) delay, handled as a plain delayed edge below
+                if want["kind"] == "through":
+                    e.pop("spread", None)          # a delay of at most one step is neglected by design (C09): the edge delivers the current value
+                    e["delay"] = None
     by_src = {}
     for i, e in enumerate(fl["edges"]):
         if e.get("delay") is not None and (e.get("spread") is not None or dde > 0):
@@ -191,7 +194,7 @@ def gen_case(rng, tier):
                 any_g = True
             elif r < 0.8 and dde == 0:
                 # a pure (discrete) delay next to distributed ones, possibly on the same source variable: it keeps its shift of round(d/dt) steps (C09)
-                e["delay"] = C.q2s(dt * rng.choice([2, 3, 4]))
+                e["delay"] = C.q2s(dt * rng.choice([1, 2, 3, 4]))      # (exactly one step: neglected, with and without vectorization)
                 mixed = True
         if not any_g:
             continue
